@@ -280,6 +280,12 @@ impl<'a> Parser<'a> {
             }
             Token::Num(i) => {
                 self.get_next_token()?;
+                // a literal directly followed by a literal (".5.5") is not an implicit product
+                if matches!(self.current_token, Token::Num(_)) {
+                    return Err(ParseError::InvalidOperator(
+                        "Expected an operator between two numbers".to_string(),
+                    ));
+                }
                 self.implicit_multiply(Node::Number(i))
             }
             Token::Pi => {
